@@ -101,6 +101,12 @@ func intRange(b *types.Basic) (lo, hi *big.Int, ok bool) {
 func Try(p *vc.Program, repo, work string, ob vc.OblResult) (out Outcome) {
 	start := time.Now()
 	defer func() { out.Seconds = time.Since(start).Seconds() }()
+	defer func() {
+		// the replay only decorates a report: it must never take the check down
+		if r := recover(); r != nil {
+			out = Outcome{Reason: fmt.Sprintf("replay gave up (internal error: %v)", r)}
+		}
+	}()
 	fn := p.Funcs[ob.Fn]
 	cs := p.Contract[ob.Fn]
 	if fn == nil || cs == nil {
@@ -332,8 +338,9 @@ func Try(p *vc.Program, repo, work string, ob vc.OblResult) (out Outcome) {
 			case pkPtrInt:
 				env[pr.name] = sentinelVal{"&" + pr.name} // a non-nil reference
 				if d, ok := lj.Deref[pr.name]; ok {
-					n, _ := new(big.Int).SetString(d, 10)
-					env["*"+pr.name] = n
+					if n, ok := new(big.Int).SetString(d, 10); ok {
+						env["*"+pr.name] = n
+					}
 				}
 			case pkBufPool:
 				env[pr.name] = sentinelVal{"&" + pr.name}
@@ -667,6 +674,12 @@ func candidates(p *vc.Program, fn *ssa.Function, cs *spec.FuncSpec, params []par
 		addS(s)
 		addS(s + "x")
 		addS("x" + s)
+		if len(s) > 0 && len(s) <= 12 {
+			addS(s + "17")
+			addS(s + s + "17")
+			addS(s + s[len(s)-1:] + "17")
+			addS(s + "0")
+		}
 		if len(s) > 0 {
 			addS(s[:len(s)-1])
 			addS(s[1:])
@@ -938,7 +951,7 @@ func harness(fn *ssa.Function, params []param, results []result, sentinels []str
 	for k, r := range results {
 		switch r.kind {
 		case rkInt:
-			fmt.Fprintf(&b, "\tout.Res = append(out.Res, fmt.Sprint(r%d))\n", k)
+			fmt.Fprintf(&b, "\tout.Res = append(out.Res, fmt.Sprintf(\"%%d\", r%d))\n", k)
 		case rkBool:
 			fmt.Fprintf(&b, "\tout.Res = append(out.Res, bool(r%d))\n", k)
 		case rkString:
@@ -956,7 +969,7 @@ func harness(fn *ssa.Function, params []param, results []result, sentinels []str
 	b.WriteString("\tout.Deref = map[string]string{}\n")
 	for k, pr := range params {
 		if pr.kind == pkPtrInt {
-			fmt.Fprintf(&b, "\tout.Deref[%q] = fmt.Sprint(v%d)\n", pr.name, k)
+			fmt.Fprintf(&b, "\tout.Deref[%q] = fmt.Sprintf(\"%%d\", v%d)\n", pr.name, k)
 		}
 	}
 	b.WriteString("\treturn out\n}\n")
